@@ -1,9 +1,61 @@
 import HedVerif.Driver.Util
+import HedVerif.Model.Temporal
 open Lean
 namespace HedVerif.Driver.C10
-open HedVerif HedVerif.Driver
+open HedVerif HedVerif.Driver HedVerif.Temporal
 
-/-- requests `{"op":"c10.<name>", ...}` of property C10 (stub: none yet) -/
-def handle (_op : String) (_j : Json) : Option (Except String Json) := none
+/-- ASCII case folding (the harness generates ASCII names only; Python `casefold` = `lower` there) -/
+def foldAscii (s : Temporal.Str) : Temporal.Str := s.map Char.toLower
+
+def kindOf : String → Except String MKind
+  | "onset" => .ok .onset | "offset" => .ok .offset | "inset" => .ok .inset
+  | k => .error s!"bad marker kind {k}"
+
+def errName : Err → String
+  | .sameDefs => "ONSET_SAME_DEFS_ONE_ROW"
+  | .offsetBeforeOnset => "OFFSET_BEFORE_ONSET"
+  | .insetBeforeOnset => "INSET_BEFORE_ONSET"
+
+def markerOf (j : Json) : Except String Marker := do
+  let a ← asArr j
+  match a with
+  | [Json.str k, Json.str n] => pure ⟨← kindOf k, n.toList⟩
+  | _ => .error "marker must be [kind, name]"
+
+def markersOf (j : Json) : Except String (List Marker) := do (← asArr j).mapM markerOf
+
+def errsJson (es : List (Nat × Nat × Err)) : Json :=
+  jarr (es.map fun (t, i, e) => jarr [jnat t, jnat i, Json.str (errName e)])
+
+def rowOf (j : Json) : Except String Row := do
+  let t ← getInt j "time"
+  let ms ← markersOf (← getVal j "markers")
+  let ds ← (← getArr j "delayed").mapM fun d => do
+    let a ← asArr d
+    match a with
+    | [dt, ms] => match dt.getInt? with
+      | .ok n => pure (n, ← markersOf ms)
+      | .error _ => .error "delay must be int"
+    | _ => .error "delayed entry must be [delay, markers]"
+  pure ⟨t, ms, ds⟩
+
+def handle (op : String) (j : Json) : Option (Except String Json) :=
+  match op with
+  | "c10.run" => some do
+      let h ← (← getArr j "history").mapM markersOf
+      pure <| jobj [("errors", errsJson (run foldAscii [] 0 h))]
+  | "c10.file" => some do
+      let rows ← (← getArr j "rows").mapM rowOf
+      let tps := timePoints rows
+      let errs := run foldAscii [] 0 (tps.map (·.markers))
+      let labelled := errs.map fun (t, _, e) => jarr [jnat ((tps[t]?.map (·.orig)).getD 0), Json.str (errName e)]
+      -- original rows that take part in a time point merged from several frame rows
+      let split := sortRows (splitRows rows)
+      let amb := tps.filterMap fun tp =>
+        if (split.filter (fun r => r.time == tp.time)).length > 1 then some tp.time else none
+      let ambRows := (split.filter (fun r => amb.contains r.time)).map (·.orig)
+      pure <| jobj [("errors", jarr labelled), ("ambiguous_labels", jarr (ambRows.eraseDups.map jnat)),
+                    ("timepoints", jarr (tps.map fun r => jarr [jint r.time, jnat r.markers.length, jnat r.orig]))]
+  | _ => none
 
 end HedVerif.Driver.C10
